@@ -260,6 +260,33 @@ def check_escape_site(ctx: Ctx) -> None:
            "wrap_paragraph must pass is_markdown on unchanged", where(wp, wp.node))
 
 
+def check_escaper_on_tokens(ctx: Ctx) -> None:
+    """The line-start escaper inserts a backslash into the word it is given. It may only ever be given a *token* of the
+    atomic-aware word splitter (a word of the fill loop): a code span, link or tag is one token there, so the escaper sees its
+    first characters only when the whole construct starts the line. Applied to a piece cut out of an assembled line
+    (`line.partition(" ")[0]`, a slice, a re-split) it can land inside a construct that contains spaces."""
+    repo, prog = ctx.repo, ctx.prog
+    esc = repo.func("flowmark.linewrapping.text_wrapping:markdown_escape_word")
+    n_sites = 0
+    for fi in repo.functions.values():
+        if isinstance(fi.node, ast.Lambda) or fi is esc or not fi.module.name.startswith("flowmark."):
+            continue
+        if not any(isinstance(x, ast.Name) and x.id == esc.name or isinstance(x, ast.Attribute) and x.attr == esc.name for x in ast.walk(fi.node)):
+            continue
+        flow = prog.flow(fi)
+        for n, c in flow.all_calls():
+            if prog.resolve_call(fi, c) != [esc] or not c.args:
+                continue
+            n_sites += 1
+            org = origins(prog, fi, c.args[0], n)
+            # a loop variable over the splitter's words (directly, or over a list of them)
+            ok = bool(org) and all(o[0] in ("iter", "for") for o in org)
+            ctx.ob("R-ESCAPE-SITE", f"{fi.qual} :: {norm(c)[:60]} escapes a whole token", ok,
+                   "the escaper must be applied to a word of the word splitter (one token per atomic construct), not to a piece cut out "
+                   "of text by other means; its argument comes from " + ", ".join(sorted(str(o)[:60] for o in org)), where(fi, c))
+    ctx.require("R-ESCAPE-SITE", "call sites of the line-start escaper", n_sites, 1)
+
+
 def check_escape_action(ctx: Ctx) -> None:
     """L2: every return of the escaper is the word itself or the word with one backslash inserted."""
     repo, prog = ctx.repo, ctx.prog
